@@ -158,11 +158,11 @@ def resolution_cases(draw, scalar_sections=True):
                                               "default": {"t": "node", "n": g.leaf()}}}
     if "domain" in node and node["domain"]["t"] == "step" and draw(st.booleans()):
         # an evaluatable domain that has a default of its own
-        node["domain"]["arg"] = {"k": "opt", "key": draw(st.sampled_from(["B", "T", "L"])), "default": {"t": "const", "v": draw(st.sampled_from([[1, "a", None], 1, "a"]))}}
+        node["domain"]["arg"] = {"k": "opt", "key": draw(st.sampled_from(["B", "E", "L"])), "default": {"t": "const", "v": draw(st.sampled_from([[1, "a", None], 1, "a"]))}}
     o = draw(rich_dicts(scalar_sections))
     more = []
     for _ in range(draw(st.integers(0, 2))):
-        o2, _ = draw(U.edit_dict(more[-1] if more else o, allow_unmentioned=False, focus=[node["key"], "B", "T", "L"]))
+        o2, _ = draw(U.edit_dict(more[-1] if more else o, allow_unmentioned=False, focus=[node["key"], "B", "E", "L"]))
         more.append(o2)
     dom = node.get("domain") or {}
     if dom.get("t") == "step" and "default" in dom.get("arg", {}) and draw(st.integers(0, 3)) > 0:
